@@ -472,7 +472,11 @@ def safe_str(value) -> str:
     :return: the string form, or a placeholder naming the type
     """
     try:
-        return wire_safe(str(value))
+        text = str(value)
+        if type(text) is not str:
+            # what a __str__ returns can be a subclass of str, with an idea of its own of slices, lengths and encoding
+            text = str.__str__(text)
+        return wire_safe(text)
     except BaseException:
         # (the name of the type, not the type itself in the text: printing a class asks its metaclass, which can fail too)
         return '%s@%s' % (type_name(type(value)), id(value))
